@@ -90,6 +90,24 @@ def documents(tier):
             docs += list(S.s1(t))
     for label, tree in docs:
         out.append((label, D.render(tree)[0]))
+    for i, e in enumerate(['("[name]" = "Lake (north")', '("[name]" = "a)b" AND [x] > 1)', "([a] = ')' OR [b] = '(')", '(("a)" + [a]) * ([b] + 2))',
+                           '([a] IN "1,2" AND NOT ([b] ~ "^(x|y)$"))', '(tostring([area],"%.2f (ha)"))', '{a (1),b}', '/^(a|b)\\)$/']):
+        out.append(("EXPR %d" % i, "LAYER\n  TYPE POINT\n  CLASS\n    EXPRESSION %s\n    TEXT %s\n  END\nEND" % (e, e if e.startswith("(") else '"t"')))
+    # equal numbers of different type in one text, in both orders (the same dictionary must always give the same text, whatever was printed before)
+    out.append(("NUM float-then-int", "STYLE\n  WIDTH 2.0\n  SIZE 25000.0\nEND\nSTYLE\n  WIDTH 2\n  SIZE 25000\nEND"))
+    out.append(("NUM int-then-float", "STYLE\n  WIDTH 2\n  SIZE 25000\nEND\nSTYLE\n  WIDTH 2.0\n  SIZE 25000.0\nEND"))
+    out.append(("NUM bool-int", "LAYER\n  TYPE POINT\n  TRANSFORM TRUE\n  OPACITY 1\n  MAXFEATURES 1\n  TOLERANCE 1.0\nEND"))
+    # documents loaded WITH their comments (labels RICHC...): stacked comment lines above openers, trailing comments
+    for label, tree in rich_docs()[:3]:
+        _, toks = D.render(tree)
+        gaps = {}
+        for i, t in enumerate(toks):
+            if i and t.role == "opener" and t.stmt_start:
+                ind = D.IND * t.depth
+                gaps[i] = "\n" + ind + "# first line above\n" + ind + "# second line above\n" + ind + "/* third */\n" + ind
+            elif i and t.stmt_start and t.role == "key" and i % 2 == 0:
+                gaps[i] = " # trailing %d\n" % i + D.IND * t.depth
+        out.append(("RICHC " + label, "# head 1\n# head 2\n" + D.render(tree, D.Style(gaps=gaps))[0]))
     for name in ("METADATA", "VALIDATION", "CONNECTIONOPTIONS"):
         out.append(("RICH root %s" % name, '%s\n  "a" "b"\n  "c" "d e"\nEND' % name))
     for f in (corpus.files() if tier == "thorough" else corpus_subset(40)):
@@ -99,8 +117,8 @@ def documents(tier):
     return out
 
 
-def load_or_none(text):
+def load_or_none(text, label=""):
     try:
-        return impl.loads(text)
+        return impl.loads(text, include_comments=label.startswith("RICHC"))
     except Exception:
         return None
